@@ -28,11 +28,12 @@ theorem updateNewConfig_split (st : Svc) (ts : Int) (h : String) (cfg : List Tri
 /-- how one call of `LongPoll.poll` ends, for every behaviour of the stub (handler open or closed) -/
 theorem pollOnce_raises (st : Svc) (refused : Option Py.Exn) (out : StubOut) (cfg : Option (List Trig)) (e : Py.Exn)
     (h : (pollOnce st refused out cfg).2 = some e) :
-    out = .raises e ∨ (e = .exc ∧ out = .garbage) ∨ (e = .exc ∧ ∃ ts hh, out = .answer .update ts hh ∧ cfg = none) ∨
+    out = .raises e ∨ out = .beforeSend e ∨ (e = .exc ∧ out = .garbage) ∨ (e = .exc ∧ ∃ ts hh, out = .answer .update ts hh ∧ cfg = none) ∨
     (refused = some e ∧ ∃ ts hh, out = .answer .update ts hh ∧ cfg ≠ none) := by
   cases out with
   | raises e' => simp only [pollOnce, Option.some.injEq] at h; exact Or.inl (by rw [h])
-  | garbage => simp only [pollOnce, Option.some.injEq] at h; exact Or.inr (Or.inl ⟨h.symm, rfl⟩)
+  | beforeSend e' => simp only [pollOnce, Option.some.injEq] at h; exact Or.inr (Or.inl (by rw [h]))
+  | garbage => simp only [pollOnce, Option.some.injEq] at h; exact Or.inr (Or.inr (Or.inl ⟨h.symm, rfl⟩))
   | answer rt ts hh =>
     cases rt with
     | noChange => simp [pollOnce, updateNoChange] at h
@@ -42,26 +43,27 @@ theorem pollOnce_raises (st : Svc) (refused : Option Py.Exn) (out : StubOut) (cf
       | none =>
         have : (pollOnce st refused (.answer .update ts hh) none).2 = some .exc := rfl
         rw [this] at h
-        exact Or.inr (Or.inr (Or.inl ⟨(Option.some.inj h).symm, ts, hh, rfl, rfl⟩))
+        exact Or.inr (Or.inr (Or.inr (Or.inl ⟨(Option.some.inj h).symm, ts, hh, rfl, rfl⟩)))
       | some c =>
         cases refused with
         | none => simp [pollOnce, updateNewConfigE, triggerUpdateE] at h
         | some e' =>
           have : (pollOnce st (some e') (.answer .update ts hh) (some c)).2 = some e' := rfl
           rw [this] at h
-          exact Or.inr (Or.inr (Or.inr ⟨h, ts, hh, rfl, by simp⟩))
+          exact Or.inr (Or.inr (Or.inr (Or.inr ⟨h, ts, hh, rfl, by simp⟩)))
 
 /-- one tick of a live thread -/
 theorem tick_live (s : PT) (ha : s.alive = true) (hs : s.stopped = false) (out : StubOut) (tps : List RawTp) :
-    (stepPT s (.tick out tps)).issued = s.issued + 1 ∧
-    (stepPT s (.tick out tps)).sent = s.sent ++ [requestHash s.svc] ∧
+    (stepPT s (.tick out tps)).issued = s.issued + (if out.sendsRequest then 1 else 0) ∧
+    (stepPT s (.tick out tps)).sent = s.sent ++ (if out.sendsRequest then [requestHash s.svc] else []) ∧
     (stepPT s (.tick out tps)).stopped = false ∧
     (stepPT s (.tick out tps)).th = s.th ∧
     (stepPT s (.tick out tps)).svc = (pollOnce s.svc (refusal s.th) out (convertResponse tps)).1 := by
   simp only [stepPT, ha, hs, Bool.not_false, Bool.and_self, if_true]
-  cases (pollOnce s.svc (refusal s.th) out (convertResponse tps)).2 with
-  | none => exact ⟨rfl, rfl, rfl, rfl, rfl⟩
-  | some e => dsimp only; split <;> exact ⟨rfl, rfl, rfl, rfl, rfl⟩
+  cases hq : out.sendsRequest <;>
+    cases (pollOnce s.svc (refusal s.th) out (convertResponse tps)).2 with
+    | none => simp [hs]
+    | some e => dsimp only; split <;> simp [hs]
 
 theorem tick_alive (s : PT) (ha : s.alive = true) (hs : s.stopped = false) (out : StubOut) (tps : List RawTp) :
     (stepPT s (.tick out tps)).alive =
@@ -69,13 +71,12 @@ theorem tick_alive (s : PT) (ha : s.alive = true) (hs : s.stopped = false) (out 
       | none => true
       | some e => timerCatchesSk e := by
   simp only [stepPT, ha, hs, Bool.not_false, Bool.and_self, if_true]
-  cases (pollOnce s.svc (refusal s.th) out (convertResponse tps)).2 with
-  | none => rfl
-  | some e =>
-    dsimp only
-    cases hc : timerCatchesSk e with
-    | true => simp
-    | false => simp
+  cases hq : out.sendsRequest <;>
+    cases (pollOnce s.svc (refusal s.th) out (convertResponse tps)).2 with
+    | none => simp [ha]
+    | some e =>
+      dsimp only
+      cases hc : timerCatchesSk e <;> simp [ha]
 
 theorem tick_died (s : PT) (ha : s.alive = true) (hs : s.stopped = false) (out : StubOut) (tps : List RawTp) :
     (stepPT s (.tick out tps)).died =
@@ -83,9 +84,19 @@ theorem tick_died (s : PT) (ha : s.alive = true) (hs : s.stopped = false) (out :
       | none => s.died
       | some e => if timerCatchesSk e then s.died else some e := by
   simp only [stepPT, ha, hs, Bool.not_false, Bool.and_self, if_true]
-  cases (pollOnce s.svc (refusal s.th) out (convertResponse tps)).2 with
-  | none => rfl
-  | some e => dsimp only; split <;> rfl
+  cases hq : out.sendsRequest <;>
+    cases (pollOnce s.svc (refusal s.th) out (convertResponse tps)).2 with
+    | none => simp
+    | some e => dsimp only; split <;> simp
+
+theorem fact_testUnguarded : timerTestUnguarded = true := by decide
+
+theorem testFails_live (s : PT) (ha : s.alive = true) (hs : s.stopped = false) :
+    stepPT s .testFails = { s with alive := false, died := some .exc } := by
+  simp [stepPT, ha, hs, fact_testUnguarded]
+
+theorem testFails_idle (s : PT) (h : s.alive = false ∨ s.stopped = true) : stepPT s .testFails = s := by
+  rcases h with h | h <;> simp [stepPT, h]
 
 /-- a thread that is not running (dead or stopped) issues no poll and touches nothing, whatever happens -/
 theorem tick_idle (s : PT) (h : s.alive = false ∨ s.stopped = true) (out : StubOut) (tps : List RawTp) :
@@ -106,6 +117,7 @@ theorem alive_false_stays (evs : List Ev) (s : PT) (h : s.alive = false) :
     cases ev with
     | tick out tps => rw [tick_idle s (Or.inl h)]; exact ih s h
     | stop => rw [step_stop]; exact ih _ rfl
+    | testFails => rw [testFails_idle s (Or.inl h)]; exact ih s h
     | flush => exact ih (stepPT s .flush) h
 
 end C12Timer
